@@ -148,10 +148,13 @@ def run_property(pid, tier, seed):
                 continue
             seen.add((u, f['obligation']))
             uniq.append((u, f))
+        wcache = {}
         for (u, f) in uniq:
             w = None
             try:
-                w = wit.search(pid, u, f)
+                if u not in wcache:
+                    wcache[u] = wit.search(pid, u, f, tier, seed)
+                w = wcache[u]
             except Exception as e:  # witness search only decorates
                 w = None
             path = write_replay(pid, u, f, results[u], w)
